@@ -494,6 +494,28 @@ def contains_type(items, ty, v, names):
     return any(i in known and known[i]["ty"] is not None and wire_tt(x) == ttype(items, known[i]["ty"]) and contains_type(items, known[i]["ty"], x, names) for i, x in v[1])
 
 
+def d12_fires(items, ty, v, args):
+    """D12: somewhere in v an argument-type struct value carries at least as many known fields as the type declares,
+    so the retention decoder's `__pilota_fields_num == 0` shortcut takes the rest of the buffer"""
+    k = ty[0]
+    if k in ("list", "set"):
+        return any(d12_fires(items, ty[1], x, args) for x in v[2])
+    if k == "map":
+        return any(d12_fires(items, ty[1], a, args) or d12_fires(items, ty[2], b, args) for a, b in v[3])
+    if k != "ref":
+        return False
+    it = items[ty[1]]
+    if it["kind"] == "typedef":
+        return d12_fires(items, it["ty"], v, args)
+    if it["kind"] == "enum":
+        return False
+    known = {f["id"]: f for f in it["fields"]}
+    kn = [(i, x) for i, x in v[1] if i in known and known[i]["ty"] is not None and wire_tt(x) == ttype(items, known[i]["ty"])]
+    if ty[1] in args and it["kind"] in ("struct", "exception") and len(kn) >= len(it["fields"]):
+        return True
+    return any(d12_fires(items, known[i]["ty"], x, args) for i, x in kn)
+
+
 def union_known_plus_unknown(items, ty, v):
     """D31: somewhere in v a union value carries a known variant together with an unknown field"""
     k = ty[0]
